@@ -26,7 +26,7 @@ META = {
 
 PROFILE = {"n_states": (2, 7), "n_events": (1, 4), "extra_transitions": (1, 8), "p_multi_event": 0.25,
            "p_guard": 0.7, "p_validator": 0.15, "p_conv": 0.08, "p_inline": 0.12, "p_deco": 0.05,
-           "n_guard_names": 5}
+           "n_guard_names": 5, "p_nested": 0.06, "nested_max": 1}
 
 
 def owns(rule, flags):
